@@ -118,10 +118,16 @@ def _respell(cmd, argv, cwd):
     return argv, cwd
 
 
+VERBOSE = {"rng": None, "rate": 0.15}
+
+
 def run(cmd, argv, cwd=None):
     r = _load()
     argv = [str(a) for a in argv]
     argv, cwd = _respell(cmd, argv, cwd)
+    vr = VERBOSE["rng"]
+    if vr is not None and cmd in ("create", "verify", "diff", "flatten") and "-v" not in argv and "--help" not in argv and vr.random() < VERBOSE["rate"]:
+        argv = argv + ["-v"]  # verbose output takes other logging paths; results must be the same
     old = os.getcwd()
     if cwd:
         os.chdir(cwd)
